@@ -13,7 +13,7 @@ from ..core import Run
 from ..pool import run_ops
 from ..tlc import read_export, run_tlc, validate_traces
 
-ALL = set(range(1, 61))
+ALL = set(range(1, 67))
 XSH = {1, 4, 13, 17, 18, 20, 23, 25, 26, 27, 28, 29, 30, 39, 40, 45, 46, 47, 48, 49, 50, 52, 53, 56, 58}
 TIERS = {"quick": [(ALL, 2), (XSH, 3)], "thorough": [(ALL, 3), (XSH, 4)]}
 
@@ -41,7 +41,12 @@ def cases_for_c04(run: Run, tier: str) -> list[dict]:
 
 def check(run: Run) -> None:
     cases = generate(run, run.tier)
-    res = run_ops("c14", [{"parts": c["parts"]} for c in cases], limit=20.0, batch=200)
+    # the same law through the file entry point: every 4th sequence (seed-shifted) and every sequence with a with-macro / debug field
+    from ..core import SEED
+
+    FILEKINDS = {26, 27, 40, 64, 65}
+    cases += [dict(c, entry="file") for i, c in enumerate(list(cases)) if (i + SEED) % 4 == 0 or (set(c["kinds"]) & FILEKINDS)]
+    res = run_ops("c14", [{"parts": c["parts"], "entry": c.get("entry", "string")} for c in cases], limit=20.0, batch=200)
     traces = []
     for i, (c, r) in enumerate(zip(cases, res)):
         run.count_case(str(c["kinds"]), nontrivial=len(c["kinds"]) > 1)
@@ -55,7 +60,8 @@ def check(run: Run) -> None:
     for i, (clause, k) in sorted(verdicts.items()):
         if clause != "ok":
             c, r = cases[i], res[i]
-            run.violation({"kinds": c["kinds"], "parts": c["parts"]}, clause, {"row": k, "diff": r.get("diff"), "whole": r.get("whole")})
+            run.violation({"kinds": c["kinds"], "parts": c["parts"], "entry": c.get("entry", "string")}, clause,
+                          {"row": k, "diff": r.get("diff"), "whole": r.get("whole")})
     run.exhaustive = True
     run.rule = "all sequences of statement kinds up to the bound (StmtSeq.tla); non-trivial = at least two statements"
     run.assumptions += ["the stand-alone parse by the same parser is the reference (the property's own relation)"]
@@ -63,6 +69,6 @@ def check(run: Run) -> None:
 
 def replay(rec: dict) -> int:
     c = rec["case"]
-    r = run_ops("c14", [{"parts": c["parts"]}], limit=20.0)[0]
+    r = run_ops("c14", [{"parts": c["parts"], "entry": c.get("entry", "string")}], limit=20.0)[0]
     print("parts:", c["parts"], "\nresult:", {k: v for k, v in r.items() if k not in ("a", "b")})
     return 0 if r["alone_ok"] and r["whole_ok"] and r.get("a") == r.get("b") else 1
